@@ -203,14 +203,20 @@ func (c CounterStyle) renderValue(counterValue int, counter *CounterStyleDescrip
 			return c.renderValue(counterValue, c.resolveCounter(counter.fallback(), previousTypes), previousTypes)
 		}
 	case "symbolic":
-		initial, ok = symbolic(counter.Symbols, value)
-		if !ok {
+		if len(counter.Symbols) == 0 {
 			return c.RenderValue(counterValue, "decimal")
 		}
+		initial, ok = symbolic(counter.Symbols, value)
+		if !ok {
+			return c.renderValue(counterValue, c.resolveCounter(counter.fallback(), previousTypes), previousTypes)
+		}
 	case "alphabetic":
+		if len(counter.Symbols) < 2 {
+			return c.RenderValue(counterValue, "decimal")
+		}
 		initial, ok = alphabetic(counter.Symbols, value)
 		if !ok {
-			return c.RenderValue(counterValue, "decimal")
+			return c.renderValue(counterValue, c.resolveCounter(counter.fallback(), previousTypes), previousTypes)
 		}
 	case "numeric":
 		initial, ok = numeric(counter.Symbols, value)
@@ -277,7 +283,8 @@ func nonRepeating(symbols []pr.NamedString, firstValue, value int) (string, bool
 
 // Implement the algorithm for `type: symbolic`.
 func symbolic(symbols []pr.NamedString, value int) (string, bool) {
-	if len(symbols) == 0 {
+	// this system is defined only over strictly positive values
+	if len(symbols) == 0 || value < 1 {
 		return "", false
 	}
 	L := len(symbols)
@@ -289,7 +296,8 @@ func symbolic(symbols []pr.NamedString, value int) (string, bool) {
 // Implement the algorithm for `type: alphabetic`.
 func alphabetic(symbols []pr.NamedString, value int) (string, bool) {
 	L := len(symbols)
-	if L < 2 {
+	// this system is defined only over strictly positive values
+	if L < 2 || value < 1 {
 		return "", false
 	}
 	reversedParts := []string{}
